@@ -39,7 +39,7 @@ def check(ctx, tier):
                                                         "tolist", "shape", "lengths", "__len__")])
     tk.purity("C01.p", [ctx.func(q) for q in ['raggedarray.RaggedArray.__len__', 'raggedarray.RaggedArray.shape', 'raggedarray.RaggedArray.lengths', 'raggedarray.RaggedArray.__iter__', 'raggedarray.RaggedArray.tolist', 'raggedarray.RaggedArray.astype', 'raggedarray.RaggedArray.to_numpy_array', 'raggedarray.RaggedArray.save', 'raggedarray.RaggedArray.equals', 'raggedarray.RaggedArray.from_numpy_array', 'raggedarray.RaggedArray._from_array_list', 'raggedshape.ViewBase.starts', 'raggedshape.ViewBase.ends', 'raggedshape.ViewBase.lengths', 'raggedshape.ViewBase.ravel_multi_index', 'raggedshape.ViewBase.unravel_multi_index', 'raggedshape.ViewBase.index_array', 'raggedshape.RaggedShape.size', 'raggedshape.RaggedShape.to_dict']], "the operation does not write into its operands' buffers", content_only=True)
     from .. import hazards as _hz, scopes as _sc
-    _hz.generic(ctx, tk, "C01.z", _sc.scope(tk, "C01", depth=2))
+    _hz.generic(ctx, tk, "C01.z", _sc.scope(tk, "C01", depth=1))
     return {}
 
 
